@@ -462,6 +462,13 @@ def inherent(ex, ci, sb, meth, args, fn, dest_ty):
                 r = ex.call_closure(args[1], [Ref(k)] if isset else [Ref(k), Ref(c_)])
                 if ex.branch(r): keep.append([k, c_])
             m.entries = keep; return unit()
+    if sb == 'Peekable':
+        it = ex.deref(a0)
+        if meth in ('peek', 'peek_mut'):
+            if it.st['peeked'] is None: it.st['peeked'] = (iter_next(ex, it.st['inner']),)
+            v = it.st['peeked'][0]
+            return opt(None) if v is None else opt(Ref(Cell(v)))
+        if meth == 'next_if' or meth == 'next_if_eq': raise Unsupported('Peekable::' + meth)
     # ------------------------------------------------------------------ Box / vec! lowering
     if sb == 'Box':
         if meth == 'new_uninit': return UBox()
